@@ -5,7 +5,7 @@ from props import coregen as G, corecheck as K, variants as V
 PID = 'C07'
 PROFILE = dict(named_cols=0.4, partial_args=0.3, inclusion=0.3, assign=0.6, lists=0.25, records=0.25, combine=0.45,
                disjunction=0.35, filter=0.4, negation=0.25, two_rules=0.4, distinct=0.3, aggregation=0.3,
-               ifthenelse=0.4, builtins=0.3, func_calls=0.4, share_names=0.5, set_agg=0.15)
+               ifthenelse=0.4, builtins=0.3, func_calls=0.4, share_names=0.5, multi_combine=0.6, set_agg=0.15)
 
 
 AGG_TEMPLATE = """@Engine("sqlite");
@@ -66,6 +66,79 @@ def arrival_order(rep, tier):
   rep.coverage['evaluations'] = rep.coverage.get('evaluations', 0) + runs
 
 
+def sibling_scopes(rep, tier):
+  """Sibling aggregating expressions / negations of one rule that use the SAME local variable name, a later
+  one using the value of an earlier one: renaming the locals apart must not change the rows, and both must
+  be the rows computed directly from the facts."""
+  from vlib import logica_run
+  r = common.rng('c07-siblings')
+  n = 12 if tier == 'quick' else 200
+  runs = bad = 0
+  AGG = {'Sum': sum, 'Max': max, 'Min': min}
+  for _ in range(n):
+    vals = [r.randint(0, 5) for _ in range(r.randint(2, 4))]
+    facts = ''.join('T(%d);\n' % v for v in vals)
+    k = r.choice([2, 2, 3])
+    ops = [r.choice(list(AGG)) for _ in range(k)]
+    uses_prev = [False] + [r.random() < 0.8 for _ in range(k - 1)]
+    in_filter = [r.random() < 0.3 for _ in range(k)]
+    neg = r.random() < 0.3
+
+    def text(names):
+      conj, prev = [], None
+      for i in range(k):
+        v, x = 'a%d' % i, names[i]
+        e = x
+        cond = 'T(%s)' % x
+        if uses_prev[i] and prev:
+          if in_filter[i]:
+            cond += ', %s <= %s' % (x, prev)
+          else:
+            e = '%s + %s' % (x, prev)
+        conj.append('%s == %s{%s :- %s}' % (v, ops[i], e, cond))
+        prev = v
+      if neg:
+        conj.append('~(T(%s), %s > %s + 100)' % (names[-1], names[-1], prev))
+      r.shuffle(conj)
+      return '@Engine("sqlite");\n' + facts + 'Q(%s) :- %s;\n' % (', '.join('a%d' % i for i in range(k)), ', '.join(conj))
+
+    # expected row, computed from the facts
+    exp, prev = [], None
+    for i in range(k):
+      xs = list(vals)
+      if uses_prev[i] and prev is not None and in_filter[i]:
+        xs = [x for x in xs if x <= prev]
+      if uses_prev[i] and prev is not None and not in_filter[i]:
+        xs = [x + prev for x in xs]
+      cur = AGG[ops[i]](xs) if xs else None
+      exp.append(cur)
+      prev = cur
+    if any(v is None for v in exp):
+      continue          # null arithmetic is not the point here
+    want = [tuple(exp)]
+    outs = {}
+    for label, names in (('same_names', ['x'] * k), ('renamed_apart', ['x', 'y', 'z'][:k])):
+      t = text(names)
+      st, a, b = logica_run.run_pred(t, 'Q')
+      outs[label] = (st, [tuple(x) for x in b] if st == 'ok' else a, t)
+      runs += 1
+    for label in outs:
+      st, rows, t = outs[label]
+      if (st != 'ok' or rows != want) and bad < 3:
+        # the order dependence of variable elimination (known finding) can reject a shuffled rule
+        if st == 'RuleCompile' and outs['same_names'][0] == outs['renamed_apart'][0] == 'RuleCompile':
+          continue
+        bad += 1
+        rep.violation('sibling-scopes:%s:%s' % (label, st), {
+            'program_text': t, 'predicate': 'Q', 'expected_rows': want, 'observed': [st, rows],
+            'other_naming': {'text': outs['renamed_apart' if label == 'same_names' else 'same_names'][2],
+                             'observed': outs['renamed_apart' if label == 'same_names' else 'same_names'][:2]},
+            'law': 'consistently renaming variables that are local to aggregating expressions does not change the rows',
+            'how': 'vlib.logica_run.run_pred(program_text, "Q")'})
+  rep.coverage['sibling_scope_runs'] = runs
+  rep.coverage['evaluations'] = rep.coverage.get('evaluations', 0) + runs
+
+
 def run(tier, replay=None):
   rep = common.Report(PID, tier, 'other')
   rep.assumptions = [
@@ -88,4 +161,5 @@ def run(tier, replay=None):
   K.run_core(rep, PID, tier, PROFILE, variants, 60, 500, 'c07', replay=replay, ok=ok, info=info, metamorphic=True)
   if not replay:
     arrival_order(rep, tier)
+    sibling_scopes(rep, tier)
   return rep.finish()
